@@ -120,12 +120,18 @@ CLAIMED = {
         "calls, any number of them) no writer call of any program panics -- neither the call a failure strikes, nor any "
         "later call, nor finish, nor the final drop (C11_no_panic_under_faults, from the writer invariant of "
         "Proofs/WriterInv.v, for every compressor/checksum function and every call list); a failing sink call is an error "
-        "of the primitive that leaves the bytes alone, and no sink primitive ever yields a panic.  READER side: the entry "
+        "of the primitive that leaves the bytes alone, and no sink primitive ever yields a panic.  A failure is never "
+        "swallowed (Proofs/FaultSurface.v): whenever a Result-returning call returns Ok, the part of the sink's plan it "
+        "consumed contains no failure -- an injected failure makes the very call during which it happens return an error, "
+        "in every state, for all arguments, compressors and checksums; a program in which no call reports an error saw "
+        "only short writes (for which the chunk-independence theorems of C09 and C13_old_bytes_preserved apply).  "
+        "READER side: the entry "
         "reader stack of a stored entry (plain or ZipCrypto) over a source with an ARBITRARY plan of short reads and "
         "failures: under every schedule of buffer sizes the bytes delivered before the first error are a prefix of the true "
         "content, a read reaching a clean end of file delivered exactly the true content, and a corrupted entry never "
         "completes -- an I/O failure surfaces as an error or as the failure-free result, never as other bytes.  For the "
-        "writer 'error or identical result' is carried by the correspondence: for 19 (thorough 160+) writer scenarios mixing all entry kinds, "
+        "writer the remaining half of 'error or identical result' (a run that saw only short writes produces the bytes of the "
+        "unchunked run, for whole programs) is carried by the correspondence: for 19 (thorough 160+) writer scenarios mixing all entry kinds, "
         "methods, extra data, alignment, ZipCrypto, raw copy, append, finish/drop and calls after finish, the k-th sink "
         "call fails for EVERY k below the failure-free call count and the crate's per-call results and final sink bytes "
         "equal the model's under the same plan (incl. the encoders' drop-time retry); reader scenarios (all methods, ZIP64, "
